@@ -197,8 +197,9 @@ func (a *allocation) createPermission(perm *permission, addr net.Addr) error {
 			// Keep the entry while the caller retries after a stale nonce:
 			// deleting it here would leave the permission, once granted, out
 			// of the map and therefore out of the periodic refresh.
+			// Nor an entry that Client.CreatePermission has been granted meanwhile.
 			if !errors.Is(err, errTryAgain) {
-				a.permMap.deleteIf(addr, perm)
+				a.permMap.deleteIfIdle(addr, perm)
 			}
 
 			return err
@@ -216,9 +217,7 @@ func (a *allocation) forgetIdlePermission(perm *permission, addr net.Addr) {
 	perm.mutex.Lock()
 	defer perm.mutex.Unlock()
 
-	if perm.state() == permStateIdle {
-		a.permMap.deleteIf(addr, perm)
-	}
+	a.permMap.deleteIfIdle(addr, perm)
 }
 
 // WriteTo writes a packet with payload to addr.
@@ -479,7 +478,7 @@ func (a *allocation) RequestPermissions(addrs ...net.Addr) error {
 	}
 
 	for _, addr := range addrs {
-		a.permMap.findOrCreate(addr).setState(permStatePermitted)
+		a.permMap.markPermitted(addr)
 	}
 
 	return nil
